@@ -1,7 +1,12 @@
 package main
 
-// extractAll registers every generated module. One function per source area.
-// Facts are kept to tables and structural facts that a model is parameterised by (a change of
-// the table changes the model the theorems are about); source text is not pinned.
+// Each facts_<area>.go file appends its extractor in init(). Facts are kept to tables and
+// structural facts that a model is parameterised by (a change of the table changes the model
+// the theorems are about); source text is not pinned.
+var extractors []func()
+
 func extractAll() {
+	for _, f := range extractors {
+		f()
+	}
 }
